@@ -29,10 +29,13 @@ func (a *statusFn) Init(r plugintypes.RuleMetadata, data string) error {
 		return ErrMissingArguments
 	}
 
-	// TODO(jcchavezs): Shall we validate valid status e.g. >200 && <600?
 	status, err := strconv.Atoi(data)
 	if err != nil {
 		return fmt.Errorf("invalid argument: %s", err.Error())
+	}
+	// net/http panics on a status code outside of this range.
+	if status < 100 || status > 999 {
+		return fmt.Errorf("invalid argument: status code %d is out of range", status)
 	}
 	r.(*corazawaf.Rule).DisruptiveStatus = status
 	return nil
